@@ -414,6 +414,10 @@ func (loader *Loader) resolveComponent(doc *T, ref string, path *url.URL, resolv
 			if cursor == nil {
 				return nil, failedToResolveRefFragmentPart(ref, pathPart)
 			}
+			if v := reflect.ValueOf(cursor); v.Kind() == reflect.Ptr && v.IsNil() {
+				// the field exists but holds nothing (e.g. the absent schema of a media type)
+				return nil, failedToResolveRefFragmentPart(ref, pathPart)
+			}
 		}
 		return cursor, nil
 	}
